@@ -7,6 +7,8 @@ import vf, json
 
 
 def run(c):
+    if not c.quick:
+        E.liveness(c, "LiveNear", "q")
     c.build_worker()
     stats = E.Stats()
     parts = ["all"] if c.quick else ["x509", "sha256", "extern", "sha1", "unknown"]
